@@ -925,6 +925,22 @@ def r17_slot_cover(ctx):
                   "%s delegates to %s" % (name, target),
                   "Duration.%s no longer delegates to %s (%s)" % (
                       name, target, sorted(callees)), P11)
+    # a subtraction written out slot by slot subtracts in every slot (a
+    # branch copied from __add__ keeps its +=)
+    f = dur.methods.get("__sub__")
+    if f is not None:
+        wrong = [U(n) for n in walk_no_nested(f.node)
+                 if isinstance(n, ast.AugAssign) and isinstance(
+                     n.target, ast.Attribute) and
+                 n.target.attr in UNIT_SLOTS + ("_weeks",) and isinstance(
+                     n.value, ast.Attribute) and
+                 n.value.attr == n.target.attr and not isinstance(
+                     n.op, ast.Sub)]
+        rep.check(not wrong, rule, ctx.fkey(f, None, "slot-operator"),
+                  f.loc(), "every slot-wise step of __sub__ subtracts",
+                  "Duration.__sub__ combines a slot with the same slot of "
+                  "the other operand by %s: that unit (the week form) is "
+                  "added instead of subtracted" % wrong, P11)
     f = dur.methods.get("__sub__")
     if f is not None:
         neg = [n for n in walk_no_nested(f.node) if isinstance(n, ast.BinOp)
